@@ -941,6 +941,23 @@ def tmpl_random(rng, struct, dim):
     return dict(name="random-grammar", jax=None, terms=terms, linear=False, params={})
 
 
+def tmpl_field_arith(dim):
+    """every arithmetic operator of the bare field objects (not of their value arrays)"""
+    from skfem.autodiff.helpers import grad, dot
+
+    def form(u, v, w):
+        return (dot(grad(u), grad(v)) + (1. - u) * v + (u - 0.5) * (u / 2.) * v + (u ** 2) * v
+                + (u + 1.) * (u + u) * v + (u - u * w.x[0]) * v + (w.x[0] - u) * v + (u * u / 4.) * v)
+    u = U(0, "val")
+    gu = gvec(0, dim)
+    terms = [(gu[j], ("v", 0, "grad", (j,))) for j in range(dim)]
+    x0 = ("x", 0)
+    terms.append((e_sum([sub(C_(1), u), mul(sub(u, C_(0.5)), mul(C_(0.5), u)), mul(u, u),
+                         mul(add(u, C_(1)), add(u, u)), sub(u, mul(u, x0)), sub(x0, u),
+                         mul(C_(0.25), mul(u, u))]), ("v", 0, "val", ())))
+    return dict(name="field-arithmetic", jax=form, terms=terms, linear=False, params={})
+
+
 def get_atom_arrays(flds, a, xp=None):
     """component array of a field tuple for the atom a = (_, f, kind, idx)"""
     fld = flds[a[1]]
@@ -1065,7 +1082,7 @@ def choose_element(rng, kind, quick):
 
 def templates_for(cat, dim):
     if cat == "scalar":
-        return [tmpl_scalar_quasilinear, tmpl_minimal_surface, tmpl_poisson, "random", "hessian"]
+        return [tmpl_scalar_quasilinear, tmpl_minimal_surface, tmpl_poisson, tmpl_field_arith, "random", "hessian"]
     if cat == "vector":
         return [tmpl_svk, tmpl_det, tmpl_vector_products, tmpl_elasticity, "random"]
     if cat == "composite-vs":
@@ -1414,6 +1431,71 @@ def nl_api_checks(ctx):
         ctx.violation("NonlinearForm api raised " + exc_kind(ex), {"err": repr(ex)}, {"what": "nl-raise"})
 
 
+def nl_operator_checks(ctx):
+    """arithmetic of a bare JaxDiscreteField (the objects u, v, w['name'] an integrand receives): every
+    operator x operand kinds (field, Python number, NumPy scalar, NumPy array, jax array; both sides)
+    against the same operation on the value arrays"""
+    import operator as op
+    import jax.numpy as jnp
+    from skfem.autodiff import JaxDiscreteField
+    rng = ctx.rng
+    n = 0
+    for rep in range(3 if ctx.tier == "quick" else 20):
+        shape = rng.choice([(2, 3), (1, 4), (3, 2, 2)])
+        a = dyadic_array(rng, shape)
+        b = dyadic_array(rng, shape)
+        a = np.where(a == 0, 0.5, a)
+        b = np.where(b == 0, -0.75, b)
+        fa, fb = JaxDiscreteField(jnp.asarray(a)), JaxDiscreteField(jnp.asarray(b))
+        c = rng.choice([2.0, -0.5, 3, 0.25])
+        others = [("field", fb, b), ("float", float(c), float(c)), ("int", 2, 2), ("np.float64", np.float64(c), c),
+                  ("jax array", jnp.asarray(b), b), ("np array", b, b)]
+        for name, f in (("add", op.add), ("sub", op.sub), ("mul", op.mul), ("truediv", op.truediv)):
+            for kind, o, oval in others:
+                for side in ("left", "right"):
+                    if kind == "field" and side == "right":
+                        continue
+                    try:
+                        got = f(fa, o) if side == "left" else f(o, fa)
+                    except (TypeError, ValueError):
+                        # combination not supported by the class (no reflected method / NumPy coercion of
+                        # the field object fails): raises, returns no value
+                        ctx.count(f"nl:operator-unsupported:{name}:{kind}:{side}")
+                        continue
+                    if isinstance(got, JaxDiscreteField):
+                        got = got.value
+                    got = np.asarray(got)
+                    if got.dtype == object:
+                        # NumPy broadcast the field as an object scalar: not an arithmetic result
+                        ctx.count(f"nl:operator-object-array:{name}:{kind}:{side}")
+                        continue
+                    want = f(a, oval) if side == "left" else f(oval, a)
+                    n += 1
+                    ctx.case({"operator": name, "kind": kind, "side": side, "rep": rep}, nontrivial=True)
+                    if got.shape != np.shape(want) or not np.allclose(got, want, rtol=1e-13, atol=0):  # (XLA may divide by reciprocal)
+                        ctx.violation(f"JaxDiscreteField: {'u' if side == 'left' else kind} {name} "
+                                      f"{kind if side == 'left' else 'u'} differs from the operation on the values",
+                                      {"operator": name, "operand": kind, "side": side, "u": a.tolist(),
+                                       "other": np.asarray(oval).tolist(), "got": got.tolist(),
+                                       "want": np.asarray(want).tolist()},
+                                      {"what": "nl-field-operator", "operator": name, "side": side})
+        for k in (2, 3):
+            try:
+                got = np.asarray(fa ** k)
+                n += 1
+                if not np.allclose(got, a ** k, rtol=1e-13, atol=0):
+                    ctx.violation("JaxDiscreteField: u ** k differs from value ** k",
+                                  {"u": a.tolist(), "k": k, "got": got.tolist()},
+                                  {"what": "nl-field-operator", "operator": "pow", "side": "left"})
+            except (TypeError, ValueError):
+                ctx.count("nl:operator-unsupported:pow")
+        idx = (0,) if len(shape) == 2 else (1, 0)
+        if not np.array_equal(np.asarray(fa[idx]), a[idx]) or tuple(fa.shape) != a.shape:
+            ctx.violation("JaxDiscreteField: indexing / shape differ from the value array",
+                          {"u": a.tolist(), "index": list(idx)}, {"what": "nl-field-operator", "operator": "getitem"})
+    ctx.count("nl:operator-checks", n)
+
+
 # ===========================================================================
 
 def run(ctx):
@@ -1470,6 +1552,11 @@ def run(ctx):
     log(f"[C20] gen-selfcheck done at {ctx.elapsed():.1f}s")
     # ---- 3. NonlinearForm
     nl_api_checks(ctx)
+    try:
+        nl_operator_checks(ctx)
+    except Exception as ex:
+        ctx.violation("JaxDiscreteField operator table raised " + exc_kind(ex), {"err": repr(ex)},
+                      {"what": "nl-raise"})
     nl_correspondence(ctx)
     log(f"[C20] nl.assemble correspondence done at {ctx.elapsed():.1f}s")
     quick = ctx.tier == "quick"
